@@ -67,9 +67,11 @@ def gen_case(rng, scale=1, combo=None):
     listed = [nm for nm in names_in_reads if rng.random() < p_listed]
     listed += [f"absent{i}" for i in range(rng.choice([0, 0, 1, 3]) or (0 if listed else 1))]
     rng.shuffle(listed)
-    dup_list = rng.random() < 0.06 and listed
+    # duplicate names in the list: rare in general; more often (and several copies) with --only-largest-block and
+    # without --discard-unknown-reads, where they decide between "number of lines" and "number of names" of a block
+    dup_list = rng.random() < (0.3 if (want_largest and not discard) else 0.06) and listed
     if dup_list:
-        listed += [rng.choice(listed) for _ in range(rng.choice([1, 2]))]
+        listed += [rng.choice(listed[:3]) for _ in range(rng.choice([1, 2, 4, 6] if want_largest else [1, 2]))]
     bad_hap = rng.random() < 0.04
     n_chrom = rng.choice([1, 1, 2, 3])
     n_ps = rng.choice([1, 2, 2, 3])
@@ -241,6 +243,13 @@ def read_records(path, fmt):
     """independent reader: list of (text identifying the whole record, length)"""
     if not os.path.exists(path):
         return None
+    try:
+        return _read_records(path, fmt)
+    except (OSError, ValueError, EOFError) as e:     # not a gzip / BAM file at all (e.g. appended to a stale file)
+        return [("<unreadable output file: %s>" % type(e).__name__, -1)]
+
+
+def _read_records(path, fmt):
     out = []
     if fmt == "bam":
         with pysam.AlignmentFile(path, "rb", check_sq=False) as af:
